@@ -6,6 +6,32 @@ C10 helper lemmas, part 5: soundness of the parser model w.r.t. the documented g
 -/
 namespace NumbatModel.Syntax
 
+/-- no nonterminal derives the empty token list -/
+theorem Derives.ne_nil : ∀ {L : Nat} {p : List Token} {e : Expr}, Derives L p e → p ≠ []
+  | _, _, _, .up _ d => d.ne_nil
+  | _, _, _, .pipe _ _ _ _ _ => by simp
+  | _, _, _, .cond _ _ _ _ _ _ _ _ _ => by simp
+  | _, _, _, .binop _ _ _ _ => by simp
+  | _, _, _, .lnot _ _ _ => by simp
+  | _, _, _, .neg _ _ _ => by simp
+  | _, _, _, .uplus _ _ _ => by simp
+  | _, _, _, .imul d _ _ => by simp [d.ne_nil]
+  | _, _, _, .pow _ _ _ _ => by simp
+  | _, _, _, .powNeg _ _ _ _ _ _ => by simp
+  | _, _, _, .fact _ d _ _ => by simp [d.ne_nil]
+  | _, _, _, .upow _ _ _ => by simp
+  | _, _, _, .call _ _ _ _ => by simp
+  | _, _, _, .field _ _ _ _ _ => by simp
+  | _, _, _, .scalar _ _ _ => by simp
+  | _, _, _, .ident _ _ => by simp
+  | _, _, _, .hole _ _ => by simp
+  | _, _, _, .true_ _ _ => by simp
+  | _, _, _, .false_ _ _ => by simp
+  | _, _, _, .str _ _ => by simp
+  | _, _, _, .paren _ _ _ _ _ => by simp
+  | _, _, _, .list _ _ _ => by simp
+  | _, _, _, .struct _ _ _ _ _ => by simp
+
 def NoNl (ts : List Token) : Prop := ∀ t ∈ ts, t.kind ≠ .newline
 
 theorem NoNl.skip {ts : List Token} (h : NoNl ts) : skipNewlines ts = ts := by
@@ -20,7 +46,7 @@ theorem NoNl.suffix {pre rest : List Token} (h : NoNl (pre ++ rest)) : NoNl rest
   fun x hx => h x (by simp [hx])
 
 theorem binOpsAt_eq (L : Nat) : binOpsAt L = opsAt L := by
-  unfold binOpsAt opsAt; split <;> rfl
+  unfold binOpsAt opsAt; rfl
 
 /-- soundness of the function of level `L` with fuel `n` -/
 def SoundAt (L n : Nat) : Prop :=
@@ -69,5 +95,310 @@ theorem soundAt_bin {L n : Nat} (hL : isBinLevel L = true) (hlt : L < 16) (ih : 
     obtain ⟨mid, hmid, hfin⟩ := binLoop_sound (L := L) (fun a b c d e => ih a b c d e) n lhs ts' e rest pre hnl'
       (Derives.up hlt hder) h
     exact ⟨pre ++ mid, by simp [hpre, hmid], hfin⟩
+
+
+/-- soundness of every function of the parser at fuel `n` -/
+structure All (n : Nat) : Prop where
+  at_ : ∀ L, L ≤ 16 → SoundAt L n
+  expr : ∀ ts e rest, NoNl ts → expression n ts = .ok (e, rest) → ∃ pre, ts = pre ++ rest ∧ Derives 0 pre e
+  loop0 : ∀ acc ts e rest pre0, NoNl ts → Derives 0 pre0 acc → postfixLoop n acc ts = .ok (e, rest) →
+    ∃ mid, ts = mid ++ rest ∧ Derives 0 (pre0 ++ mid) e
+  loop11 : ∀ acc ts e rest pre0, NoNl ts → Derives 11 pre0 acc → ifactorLoop n acc ts = .ok (e, rest) →
+    ∃ mid, ts = mid ++ rest ∧ Derives 11 (pre0 ++ mid) e
+  loop15 : ∀ acc ts e rest pre0, NoNl ts → Derives 15 pre0 acc → callLoop n acc ts = .ok (e, rest) →
+    ∃ mid, ts = mid ++ rest ∧ Derives 15 (pre0 ++ mid) e
+  args : ∀ ts as rest, NoNl ts → arguments n ts = .ok (as, rest) →
+    ∃ pre, ts = pre ++ rest ∧ DerivesArgs .rightParen pre as
+  argsLoop : ∀ acc ts as rest, NoNl ts → argumentsLoop n acc ts = .ok (as, rest) →
+    ∃ pre more, ts = pre ++ rest ∧ as = acc ++ more ∧ DerivesArgsTail .rightParen pre more
+  list : ∀ acc ts e rest, NoNl ts → listLoop n acc ts = .ok (e, rest) →
+    ∃ pre more, ts = pre ++ rest ∧ e = .list (acc ++ more) ∧ DerivesArgs .rightBracket pre more
+  struct : ∀ name acc ts e rest, NoNl ts → structLoop n name acc ts = .ok (e, rest) →
+    ∃ pre more, ts = pre ++ rest ∧ e = .struct name (acc ++ more) ∧ DerivesFields pre more
+
+theorem all_zero : All 0 := by
+  refine ⟨?_, ?_, ?_, ?_, ?_, ?_, ?_, ?_, ?_⟩
+  · intro L _ ts e rest _ h; rw [parseAt_zero] at h; cases h
+  all_goals (intros; simp_all [expression, postfixLoop, ifactorLoop, callLoop, arguments, argumentsLoop, listLoop, structLoop])
+
+theorem countBangs_spec : ∀ (ts : List Token), ∃ bangs, ts = bangs ++ (countBangs ts).2 ∧ bangs.length = (countBangs ts).1 ∧
+    ∀ b ∈ bangs, b.kind = .exclamationMark
+  | [] => ⟨[], by simp [countBangs]⟩
+  | t :: ts => by
+    by_cases h : t.kind = .exclamationMark
+    · obtain ⟨bs, h1, h2, h3⟩ := countBangs_spec ts
+      refine ⟨t :: bs, ?_, ?_, ?_⟩
+      · simp only [countBangs, h, beq_self_eq_true, ↓reduceIte, List.cons_append]; rw [← h1]
+      · simp [countBangs, h, h2]
+      · intro b hb; rcases List.mem_cons.mp hb with rfl | hb
+        · exact h
+        · exact h3 b hb
+    · exact ⟨[], by simp [countBangs, h]⟩
+
+
+section Steps
+variable {n : Nat} (A : All n)
+include A
+
+theorem step_at0 : SoundAt 0 (n + 1) := by
+  intro ts e rest hnl h
+  simp only [parseAt, postfixApply] at h
+  split at h
+  · cases h
+  · rename_i e1 ts' hc
+    obtain ⟨pre, hpre, hder⟩ := A.at_ 1 (by omega) ts e1 ts' hnl hc
+    have hnl' : NoNl ts' := by rw [hpre] at hnl; exact hnl.suffix
+    obtain ⟨mid, hmid, hfin⟩ := A.loop0 e1 ts' e rest pre hnl' (Derives.up (by omega) hder) h
+    exact ⟨pre ++ mid, by simp [hpre, hmid], hfin⟩
+
+theorem step_at1 : SoundAt 1 (n + 1) := by
+  intro ts e rest hnl h
+  simp only [parseAt] at h
+  cases ts with
+  | nil =>
+    simp only [condition] at h
+    obtain ⟨pre, hpre, hder⟩ := A.at_ 2 (by omega) [] e rest hnl h
+    exact ⟨pre, hpre, Derives.up (by omega) hder⟩
+  | cons t tl =>
+    simp only [condition] at h
+    split at h
+    · rename_i hif
+      split at h
+      · cases h
+      · rename_i c ts1 hc
+        obtain ⟨p1, hp1, hd1⟩ := A.at_ 2 (by omega) tl c ts1 hnl.tail hc
+        have hnl1 : NoNl ts1 := by rw [hp1] at hnl; exact hnl.tail.suffix
+        rw [hnl1.skip] at h
+        split at h
+        · cases h
+        · rename_i t2 rest2
+          split at h
+          · cases h
+          · rename_i hthen
+            rw [hnl1.tail.skip] at h
+            split at h
+            · cases h
+            · rename_i th ts2 hth
+              obtain ⟨p2, hp2, hd2⟩ := A.at_ 1 (by omega) rest2 th ts2 hnl1.tail hth
+              have hnl2 : NoNl ts2 := by rw [hp2] at hnl1; exact hnl1.tail.suffix
+              rw [hnl2.skip] at h
+              split at h
+              · cases h
+              · rename_i t3 rest3
+                split at h
+                · cases h
+                · rename_i helse
+                  rw [hnl2.tail.skip] at h
+                  split at h
+                  · cases h
+                  · rename_i el ts3 hel
+                    obtain ⟨p3, hp3, hd3⟩ := A.at_ 1 (by omega) rest3 el ts3 hnl2.tail hel
+                    injection h with h; injection h with h1 h2; subst h1 h2
+                    refine ⟨t :: p1 ++ t2 :: p2 ++ t3 :: p3, by simp [hp1, hp2, hp3], ?_⟩
+                    exact Derives.cond t t2 t3 (by simpa using hif) hd1 (by simpa using hthen) hd2
+                      (by simpa using helse) hd3
+    · obtain ⟨pre, hpre, hder⟩ := A.at_ 2 (by omega) (t :: tl) e rest hnl h
+      exact ⟨pre, hpre, Derives.up (by omega) hder⟩
+
+theorem step_at5 : SoundAt 5 (n + 1) := by
+  intro ts e rest hnl h
+  simp only [parseAt] at h
+  cases ts with
+  | nil =>
+    simp only [logicalNeg] at h
+    obtain ⟨pre, hpre, hder⟩ := A.at_ 6 (by omega) [] e rest hnl h
+    exact ⟨pre, hpre, Derives.up (by omega) hder⟩
+  | cons t tl =>
+    simp only [logicalNeg] at h
+    split at h
+    · rename_i hk
+      split at h
+      · cases h
+      · rename_i e1 ts' h1
+        obtain ⟨pre, hpre, hder⟩ := A.at_ 5 (by omega) tl e1 ts' hnl.tail h1
+        injection h with h; injection h with h1 h2; subst h1 h2
+        exact ⟨t :: pre, by simp [hpre], Derives.lnot t (by simpa using hk) hder⟩
+    · obtain ⟨pre, hpre, hder⟩ := A.at_ 6 (by omega) (t :: tl) e rest hnl h
+      exact ⟨pre, hpre, Derives.up (by omega) hder⟩
+
+theorem step_at10 : SoundAt 10 (n + 1) := by
+  intro ts e rest hnl h
+  simp only [parseAt] at h
+  cases ts with
+  | nil =>
+    simp only [unary] at h
+    obtain ⟨pre, hpre, hder⟩ := A.at_ 11 (by omega) [] e rest hnl h
+    exact ⟨pre, hpre, Derives.up (by omega) hder⟩
+  | cons t tl =>
+    simp only [unary] at h
+    split at h
+    · rename_i hk
+      split at h
+      · cases h
+      · rename_i e1 ts' h1
+        obtain ⟨pre, hpre, hder⟩ := A.at_ 10 (by omega) tl e1 ts' hnl.tail h1
+        injection h with h; injection h with h1 h2; subst h1 h2
+        exact ⟨t :: pre, by simp [hpre], Derives.neg t (by simpa using hk) hder⟩
+    · split at h
+      · rename_i hk
+        obtain ⟨pre, hpre, hder⟩ := A.at_ 10 (by omega) tl e rest hnl.tail h
+        exact ⟨t :: pre, by simp [hpre], Derives.uplus t (by simpa using hk) hder⟩
+      · obtain ⟨pre, hpre, hder⟩ := A.at_ 11 (by omega) (t :: tl) e rest hnl h
+        exact ⟨pre, hpre, Derives.up (by omega) hder⟩
+
+theorem step_at11 : SoundAt 11 (n + 1) := by
+  intro ts e rest hnl h
+  simp only [parseAt, ifactor] at h
+  split at h
+  · cases h
+  · rename_i e1 ts' hc
+    obtain ⟨pre, hpre, hder⟩ := A.at_ 12 (by omega) ts e1 ts' hnl hc
+    have hnl' : NoNl ts' := by rw [hpre] at hnl; exact hnl.suffix
+    obtain ⟨mid, hmid, hfin⟩ := A.loop11 e1 ts' e rest pre hnl' (Derives.up (by omega) hder) h
+    exact ⟨pre ++ mid, by simp [hpre, hmid], hfin⟩
+
+theorem step_at15 : SoundAt 15 (n + 1) := by
+  intro ts e rest hnl h
+  simp only [parseAt, call] at h
+  split at h
+  · cases h
+  · rename_i e1 ts' hc
+    obtain ⟨pre, hpre, hder⟩ := A.at_ 16 (by omega) ts e1 ts' hnl hc
+    have hnl' : NoNl ts' := by rw [hpre] at hnl; exact hnl.suffix
+    obtain ⟨mid, hmid, hfin⟩ := A.loop15 e1 ts' e rest pre hnl' (Derives.up (by omega) hder) h
+    exact ⟨pre ++ mid, by simp [hpre, hmid], hfin⟩
+
+
+theorem step_at12 : SoundAt 12 (n + 1) := by
+  intro ts e rest hnl h
+  simp only [parseAt, power] at h
+  split at h
+  · cases h
+  · rename_i e1 ts' hc
+    obtain ⟨pre, hpre, hder⟩ := A.at_ 13 (by omega) ts e1 ts' hnl hc
+    have hnl' : NoNl ts' := by rw [hpre] at hnl; exact hnl.suffix
+    split at h
+    · injection h with h; injection h with h1 h2; subst h1 h2
+      exact ⟨pre, hpre, Derives.up (by omega) hder⟩
+    · rename_i t tl
+      split at h
+      · rename_i hk
+        split at h
+        · split at h
+          · cases h
+          · rename_i rhs ts'' hr
+            obtain ⟨p2, hp2, hd2⟩ := A.at_ 12 (by omega) [] rhs ts'' (by intro x hx; cases hx) hr
+            injection h with h; injection h with h1 h2; subst h1 h2
+            exact ⟨pre ++ t :: p2, by simp [hpre, hp2], Derives.pow t hder (by simpa using hk) hd2⟩
+        · rename_i t2 rest2
+          split at h
+          · rename_i hm
+            split at h
+            · cases h
+            · rename_i rhs ts'' hr
+              obtain ⟨p2, hp2, hd2⟩ := A.at_ 12 (by omega) rest2 rhs ts'' hnl'.tail.tail hr
+              injection h with h; injection h with h1 h2; subst h1 h2
+              exact ⟨pre ++ t :: t2 :: p2, by simp [hpre, hp2],
+                Derives.powNeg t t2 hder (by simpa using hk) (by simpa using hm) hd2⟩
+          · split at h
+            · cases h
+            · rename_i rhs ts'' hr
+              obtain ⟨p2, hp2, hd2⟩ := A.at_ 12 (by omega) (t2 :: rest2) rhs ts'' hnl'.tail hr
+              injection h with h; injection h with h1 h2; subst h1 h2
+              exact ⟨pre ++ t :: p2, by simp [hpre, hp2], Derives.pow t hder (by simpa using hk) hd2⟩
+      · injection h with h; injection h with h1 h2; subst h1 h2
+        exact ⟨pre, hpre, Derives.up (by omega) hder⟩
+
+theorem step_at13 : SoundAt 13 (n + 1) := by
+  intro ts e rest hnl h
+  simp only [parseAt, factorial] at h
+  split at h
+  · cases h
+  · rename_i e1 ts' hc
+    obtain ⟨pre, hpre, hder⟩ := A.at_ 14 (by omega) ts e1 ts' hnl hc
+    obtain ⟨bangs, hb1, hb2, hb3⟩ := countBangs_spec ts'
+    split at h
+    · rename_i hne
+      injection h with h; injection h with h1 h2; subst h1 h2
+      refine ⟨pre ++ bangs, by rw [List.append_assoc, ← hb1, hpre], ?_⟩
+      rw [← hb2]
+      refine Derives.fact bangs hder ?_ hb3
+      intro hnil; subst hnil; simp at hb2; simp [← hb2] at hne
+    · injection h with h; injection h with h1 h2; subst h1 h2
+      exact ⟨pre, hpre, Derives.up (by omega) hder⟩
+
+theorem step_at14 : SoundAt 14 (n + 1) := by
+  intro ts e rest hnl h
+  simp only [parseAt, unicodePower] at h
+  split at h
+  · cases h
+  · rename_i e1 ts' hc
+    obtain ⟨pre, hpre, hder⟩ := A.at_ 15 (by omega) ts e1 ts' hnl hc
+    split at h
+    · injection h with h; injection h with h1 h2; subst h1 h2
+      exact ⟨pre, hpre, Derives.up (by omega) hder⟩
+    · rename_i t tl
+      split at h
+      · rename_i hk
+        injection h with h; injection h with h1 h2; subst h1 h2
+        exact ⟨pre ++ [t], by simp [hpre], Derives.upow t hder (by simpa using hk)⟩
+      · injection h with h; injection h with h1 h2; subst h1 h2
+        exact ⟨pre, hpre, Derives.up (by omega) hder⟩
+
+theorem step_loop0 : ∀ acc ts e rest pre0, NoNl ts → Derives 0 pre0 acc → postfixLoop (n + 1) acc ts = .ok (e, rest) →
+    ∃ mid, ts = mid ++ rest ∧ Derives 0 (pre0 ++ mid) e := by
+  intro acc ts e rest pre0 hnl hd h
+  cases ts with
+  | nil =>
+    simp only [postfixLoop] at h
+    injection h with h; injection h with h1 h2; subst h1 h2
+    exact ⟨[], by simp, by simpa using hd⟩
+  | cons t tl =>
+    simp only [postfixLoop] at h
+    split at h
+    · rename_i hk
+      rw [hnl.tail.skip] at h
+      split at h
+      · cases h
+      · rename_i name ts' hc
+        obtain ⟨p, hp, hder⟩ := A.at_ 15 (by omega) tl _ ts' hnl.tail hc
+        have hnl' : NoNl ts' := by rw [hp] at hnl; exact hnl.tail.suffix
+        have hd' : Derives 0 (pre0 ++ t :: p) (pipeResult acc (.ident name)) :=
+          Derives.pipe t hd (by simpa using hk) hder rfl
+        obtain ⟨mid, hmid, hfin⟩ := A.loop0 _ ts' e rest _ hnl' hd' h
+        exact ⟨t :: p ++ mid, by simp [hp, hmid], by simpa [List.append_assoc] using hfin⟩
+      · rename_i f args ts' hc
+        obtain ⟨p, hp, hder⟩ := A.at_ 15 (by omega) tl _ ts' hnl.tail hc
+        have hnl' : NoNl ts' := by rw [hp] at hnl; exact hnl.tail.suffix
+        have hd' : Derives 0 (pre0 ++ t :: p) (pipeResult acc (.call f args)) :=
+          Derives.pipe t hd (by simpa using hk) hder rfl
+        obtain ⟨mid, hmid, hfin⟩ := A.loop0 _ ts' e rest _ hnl' hd' h
+        exact ⟨t :: p ++ mid, by simp [hp, hmid], by simpa [List.append_assoc] using hfin⟩
+      · cases h
+    · injection h with h; injection h with h1 h2; subst h1 h2
+      exact ⟨[], by simp, by simpa using hd⟩
+
+theorem step_loop11 : ∀ acc ts e rest pre0, NoNl ts → Derives 11 pre0 acc → ifactorLoop (n + 1) acc ts = .ok (e, rest) →
+    ∃ mid, ts = mid ++ rest ∧ Derives 11 (pre0 ++ mid) e := by
+  intro acc ts e rest pre0 hnl hd h
+  simp only [ifactorLoop] at h
+  split at h
+  · rename_i hk
+    split at h
+    · cases h
+    · rename_i rhs ts' hc
+      obtain ⟨p, hp, hder⟩ := A.at_ 12 (by omega) ts rhs ts' hnl hc
+      have hnl' : NoNl ts' := by rw [hp] at hnl; exact hnl.suffix
+      have hpk : couldStartPower (peekKind p) = true := by
+        cases p with
+        | nil => exact absurd rfl hder.ne_nil
+        | cons q qs => rw [hp] at hk; simpa [peekKind] using hk
+      have hd' : Derives 11 (pre0 ++ p) (.imul acc rhs) := Derives.imul hd hder hpk
+      obtain ⟨mid, hmid, hfin⟩ := A.loop11 _ ts' e rest _ hnl' hd' h
+      exact ⟨p ++ mid, by simp [hp, hmid], by simpa [List.append_assoc] using hfin⟩
+  · injection h with h; injection h with h1 h2; subst h1 h2
+    exact ⟨[], by simp, by simpa using hd⟩
+
+end Steps
 
 end NumbatModel.Syntax
